@@ -29,6 +29,9 @@ pub struct LayoutOpts {
   /// another mapping's trigger or absorbed key, shared absorbing lists): interacting mappings are
   /// where the state machine is most fragile
   pub related: bool,
+  /// few keys, many interactions: five trigger keys, two output modifiers, three output keys,
+  /// absorbing lists on half of the chords, outputs that often contain a trigger modifier
+  pub dense: bool,
   pub absorbing: bool,
   pub norepeat: bool,
   pub special: bool,
@@ -72,13 +75,17 @@ pub fn gen_motif_layout(rng: &mut Rng, o: &LayoutOpts) -> Layout {
       let mut keys = vec![]; for _ in 0..rng.below(3) { let k = if rng.chance(1, 3) { rng.pick(omods) } else { rng.pick(oact) }; uniq_push(&mut keys, k); }
       Repeat::Special { keys, delay_ms: 100 + rng.below(100) as i32, interval_ms: 10 + rng.below(50) as i32 }
     } else { Repeat::Normal };
+    // an output-side alias stands for the key chosen on the trigger side ("@shift A" -> "@shift X"):
+    // the chord's output then begins with its own (possibly absorbed) alias key
+    let alias_out = rng.chance(1, 3);
+    let with_alias = |a: &KeyCode, to: &Vec<KeyCode>| -> Vec<KeyCode> { if alias_out && !to.contains(a) && to.iter().any(|k| !is_mod(k)) { let mut t = vec![*a]; t.extend(to.iter().cloned()); t } else { to.clone() } };
     for a in &aliases {
       if rng.chance(1, 10) { continue; }
-      mappings.push(Mapping { from: vec![*a, *f], to: to.clone(), repeat: repeat.clone(), absorbing: if absorb { vec![*a] } else { vec![] } });
+      mappings.push(Mapping { from: vec![*a, *f], to: with_alias(a, &to), repeat: repeat.clone(), absorbing: if absorb { vec![*a] } else { vec![] } });
     }
     // now and then the plain key is remapped too, or a two-alias chord exists
     if rng.chance(1, 4) { mappings.push(Mapping { from: vec![*f], to: vec![rng.pick(oact)], repeat: Repeat::Normal, absorbing: vec![] }); }
-    if aliases.len() >= 2 && rng.chance(1, 4) { mappings.push(Mapping { from: vec![aliases[0], aliases[1], *f], to: vec![rng.pick(oact)], repeat: Repeat::Normal, absorbing: if absorb { vec![aliases[0], aliases[1]] } else { vec![] } }); }
+    if aliases.len() >= 2 && rng.chance(1, 3) { let t2 = vec![rng.pick(oact)]; let which = aliases[rng.below(2)]; mappings.push(Mapping { from: vec![aliases[0], aliases[1], *f], to: with_alias(&which, &t2), repeat: Repeat::Normal, absorbing: if absorb { vec![aliases[0], aliases[1]] } else { vec![] } }); }
   }
   let mut o2 = o.clone(); o2.max_map = 2;
   if rng.chance(1, 3) { mappings.extend(gen_layout(rng, &o2).mappings); }
@@ -86,14 +93,30 @@ pub fn gen_motif_layout(rng: &mut Rng, o: &LayoutOpts) -> Layout {
   Layout { mappings }
 }
 
+pub const TRIG_POOL_DENSE: &[KeyCode] = &[LEFTSHIFT, LEFTALT, CAPSLOCK, A, B];
+pub const OUT_MODS_DENSE: &[KeyCode] = &[LEFTSHIFT, LEFTALT];
+pub const OUT_ACT_DENSE: &[KeyCode] = &[A, X, CAPSLOCK];
+
 pub fn gen_layout(rng: &mut Rng, o: &LayoutOpts) -> Layout {
-  let trig = if o.big { TRIG_POOL_BIG } else { TRIG_POOL };
-  let omods = if o.big { OUT_MODS_BIG } else { OUT_MODS };
-  let oact = if o.big { OUT_ACT_BIG } else { OUT_ACT };
+  let trig = if o.dense { TRIG_POOL_DENSE } else if o.big { TRIG_POOL_BIG } else { TRIG_POOL };
+  let omods = if o.dense { OUT_MODS_DENSE } else if o.big { OUT_MODS_BIG } else { OUT_MODS };
+  let oact = if o.dense { OUT_ACT_DENSE } else if o.big { OUT_ACT_BIG } else { OUT_ACT };
   let n = 1 + rng.below(o.max_map);
   let mut mappings = vec![];
+  // people paste the same custom repeat onto several keys: Special repeats come mostly from a
+  // small per-layout palette, so that different mappings carry identical requests
+  let mut palette: Vec<Repeat> = vec![];
+  for _ in 0..rng.range(1, 2) {
+    let mut keys = vec![];
+    let nk = rng.below(3);
+    while keys.len() < nk { let k = if rng.chance(1, 3) { rng.pick(omods) } else { rng.pick(oact) }; uniq_push(&mut keys, k); }
+    let (d, i) = if o.edge_times && rng.chance(1, 3) { ([0, 1, 5][rng.below(3)], [1, 2, 7][rng.below(3)]) } else { (100 + rng.below(100) as i32, 10 + rng.below(50) as i32) };
+    // the loader accepts any integers here; the mapper-level properties do not exclude them
+    let (d, i) = if o.weird && !o.edge_times && rng.chance(1, 4) { ([-1, 0, -2147483648, d][rng.below(4)], [0, -1, i, i][rng.below(4)]) } else { (d, i) };
+    palette.push(Repeat::Special { keys, delay_ms: d, interval_ms: i });
+  }
   for _ in 0..n {
-    let nm = if o.weird && rng.chance(1, 6) { 3 } else { [0, 0, 1, 1, 1, 2][rng.below(6)] };
+    let nm = if o.dense { [0, 1, 1, 2, 2][rng.below(5)] } else if o.weird && rng.chance(1, 6) { 3 } else { [0, 0, 1, 1, 1, 2][rng.below(6)] };
     let mut from: Vec<KeyCode> = vec![];
     let base: Option<Mapping> = if o.related && !mappings.is_empty() && rng.chance(1, 2) { Some(rng.pick(&mappings)) } else { None };
     if let Some(b) = &base {
@@ -138,6 +161,7 @@ pub fn gen_layout(rng: &mut Rng, o: &LayoutOpts) -> Layout {
       }
     }
     let repeat = if o.norepeat && rng.chance(1, 4) { Repeat::Disabled }
+      else if o.special && rng.chance(1, 4) && rng.chance(2, 3) { rng.pick(&palette) }
       else if o.special && rng.chance(1, 4) {
         let mut keys = vec![];
         let nk = rng.below(3) + if rng.chance(1, 8) { 1 } else { 0 };
@@ -145,9 +169,14 @@ pub fn gen_layout(rng: &mut Rng, o: &LayoutOpts) -> Layout {
         let (d, i) = if o.edge_times && rng.chance(1, 3) { ([0, 1, 5][rng.below(3)], [1, 2, 7][rng.below(3)]) } else { (100 + rng.below(100) as i32, 10 + rng.below(50) as i32) };
         Repeat::Special { keys, delay_ms: d, interval_ms: i }
       } else { Repeat::Normal };
+    if o.dense && rng.chance(1, 3) && from.len() > 1 && to.iter().any(|k| !is_mod(k)) {
+      // the output begins with one of the chord's own modifiers
+      let k = from[rng.below(from.len() - 1)];
+      if !to.contains(&k) { let mut t2 = vec![k]; t2.extend(to.iter().cloned()); to = t2; }
+    }
     let mut absorbing = vec![];
-    if o.absorbing && from.len() > 1 && rng.chance(1, if o.related { 2 } else { 3 }) {
-      for k in &from[..from.len() - 1] { if rng.chance(2, 3) { absorbing.push(*k); } }
+    if o.absorbing && from.len() > 1 && rng.chance(1, if o.dense || o.related { 2 } else { 3 }) {
+      for k in &from[..from.len() - 1] { if rng.chance(if o.dense { 3 } else { 2 }, if o.dense { 4 } else { 3 }) { absorbing.push(*k); } }
     }
     mappings.push(Mapping { from, to, repeat, absorbing });
   }
